@@ -11,9 +11,10 @@
 (*    lists are the candidates the named deviations json-string-go-escapes *)
 (*    and escape-not-readable stand for.                                   *)
 (*                                                                         *)
-(* 2. Every value v of depth <= 2 with <= 2 children over a palette of     *)
-(*    scalar classes, records / hashes with symbol and string keys, plus   *)
-(*    every string of <= MaxStr character classes (initial states):        *)
+(* 2. Every value v of depth <= 2 with <= 2 children (one of them nested)   *)
+(*    over a palette of scalar classes, arrays, lists, records / hashes    *)
+(*    with symbol and string keys, plus every string of <= MaxStr          *)
+(*    character classes (initial states):                                  *)
 (*      RefRoundTrip  the reference JSON encoding RefEnc(v) (reserved      *)
 (*                    members Atype / zKeyOrder at every level) denotes v  *)
 (*      OrderMatters, TypeMatters, LeafMatters  and denotes no variant of  *)
@@ -29,7 +30,8 @@
 (***************************************************************************)
 EXTENDS Codec
 
-CONSTANT MaxStr
+CONSTANTS MaxStr,    \* strings of up to MaxStr character classes
+          Deep       \* TRUE: also the values whose second child is the nested one
 
 JsonBadClasses == {"bel", "vt", "c0", "del", "astral_np", "invalid"}
 ZyBadStr == {"bs", "ff", "vt", "c0", "del", "bmp_np", "astral_np", "invalid"}
@@ -47,8 +49,12 @@ ASSUME \A c \in Classes \ (ZyBadChr \cup {"invalid"}) :
 ASSUME JsonToksDenote(<< <<"u4", 55357>>, <<"u4", 56832>> >>, << 128512 >>)
 ASSUME ~JsonToksDenote(<< <<"u4", 55357>> >>, << 55357 >>)
 
-ClassSeq == [i \in 1..Cardinality(Classes) |-> CHOOSE c \in Classes : Cardinality({d \in Classes : ClassRep(d) < ClassRep(c)}) = i - 1]
-CCRep == [i \in 1..Len(ClassSeq) |-> <<ClassRep(ClassSeq[i]), ClassSeq[i]>>]     \* class table of the representatives
+(* class table of the representatives *)
+CCRep == << <<97, "plain">>, <<34, "dquote">>, <<39, "squote">>, <<92, "backslash">>, <<10, "nl">>, <<13, "cr">>,
+            <<9, "tab">>, <<7, "bel">>, <<8, "bs">>, <<12, "ff">>, <<11, "vt">>, <<1, "c0">>, <<127, "del">>,
+            <<8232, "bmp_np">>, <<233, "bmp_p">>, <<128512, "astral_p">>, <<1114111, "astral_np">>, <<-255, "invalid">>,
+            <<99, "plain">>, <<113, "plain">>, <<116, "plain">>, <<120, "plain">>, <<121, "plain">>, <<122, "plain">> >>
+ASSUME \A i \in 1..18 : ClassRep(CCRep[i][2]) = CCRep[i][1]
 
 (* ---- the explored values ---- *)
 Reps == {ClassRep(c) : c \in Classes \ {"invalid"}}
@@ -58,9 +64,8 @@ SeqsUpTo(S, n) == IF n = 0 THEN {<<>>}
 Strings == {<<"str", s>> : s \in SeqsUpTo(Reps, MaxStr)}
 
 F(d, e, sci) == <<"flt", "fin", 1, d, e, sci>>
-Palette == { <<"nil">>, <<"bool", TRUE>>, <<"int", 1, <<7>>>>, F(<<2, 5>>, 1, FALSE), F(<<1>>, 1, FALSE),
-             <<"str", <<97>>>>, <<"str", <<7>>>> }
-Extra == { <<"uint", <<1, 2>>>>, F(<<1>>, 1, TRUE), F(Int63p, 19, FALSE), F(<<1>>, 22, FALSE), <<"int", -1, Int63p>>,
+Palette == { <<"nil">>, <<"int", 1, <<7>>>>, F(<<1>>, 1, FALSE), <<"str", <<97>>>>, <<"str", <<7>>>> }
+Extra == { <<"bool", TRUE>>, F(<<2, 5>>, 1, FALSE), <<"uint", <<1, 2>>>>, F(<<1>>, 1, TRUE), F(Int63p, 19, FALSE), F(<<1>>, 22, FALSE), <<"int", -1, Int63p>>,
            <<"chr", 99>>, <<"chr", 233>>, <<"chr", 8>>, <<"sym", <<113>>>>, <<"flt", "inf", 1, <<>>, 0, FALSE>>,
            <<"flt", "nan", 0, <<>>, 0, FALSE>>, <<"flt", "fin", 0, <<>>, 0, FALSE>> }
 Sym(n) == <<"sym", <<n>>>>
@@ -69,21 +74,31 @@ KeySeqs2 == { <<Sym(122), Sym(97)>>, <<Sym(97), <<"str", <<116>>>> >> }
 TypeNames == { HashName, <<114, 101, 99>> }
 Hash(tn, ks, vs) == <<"hash", tn, [i \in 1..Len(ks) |-> <<ks[i], vs[i]>>]>>
 
-Containers(X, Y) ==     \* containers whose first child is from X, second (if any) from Y
-    {<<"arr", <<x>>>> : x \in X} \cup {<<"arr", <<x, y>>>> : x \in X, y \in Y}
-    \cup {<<"list", <<x>>>> : x \in X} \cup {<<"list", <<x, y>>>> : x \in X, y \in Y}
-    \cup {Hash(tn, ks, <<x>>) : tn \in TypeNames, ks \in KeySeqs1, x \in X}
-    \cup {Hash(tn, ks, <<x, y>>) : tn \in TypeNames, ks \in KeySeqs2, x \in X, y \in Y}
+(* containers whose first child is from X, second (if any) from Y, in six families *)
+Fam(k, X, Y) ==
+    CASE k = 1 -> {<<"arr", <<x>>>> : x \in X} \cup {<<"list", <<x>>>> : x \in X}
+      [] k = 2 -> {<<"arr", <<x, y>>>> : x \in X, y \in Y}
+      [] k = 3 -> {<<"list", <<x, y>>>> : x \in X, y \in Y}
+      [] k = 4 -> {Hash(tn, ks, <<x>>) : tn \in TypeNames, ks \in KeySeqs1, x \in X}
+      [] k = 5 -> {Hash(HashName, ks, <<x, y>>) : ks \in KeySeqs2, x \in X, y \in Y}
+      [] k = 6 -> {Hash(<<114, 101, 99>>, ks, <<x, y>>) : ks \in KeySeqs2, x \in X, y \in Y}
+Containers(X, Y) == UNION {Fam(k, X, Y) : k \in 1..6}
 Empties == {<<"arr", <<>>>>} \cup {Hash(tn, <<>>, <<>>) : tn \in TypeNames}
 Level0 == Palette
 Level1 == Empties \cup Containers(Level0, Level0)
-Level2 == Containers(Level1, Level0 \cup Level1) \cup Containers(Level0, Level1)
-MCVals == Strings \cup Extra \cup {<<"arr", <<x>>>> : x \in Extra} \cup Level0 \cup Level1 \cup Level2
+
+(* the explored values, in 13 parts so that TLC's workers share the work: the    *)
+(* initial states are the part numbers, every value is a successor of its part   *)
+Part(k) ==
+    IF k = 1 THEN Strings \cup Extra \cup {<<"arr", <<x>>>> : x \in Extra} \cup Level0 \cup Level1
+    ELSE IF k <= 7 THEN Fam(k - 1, Level1, Level0)
+    ELSE Fam(k - 7, Level0, Level1)
 
 VARIABLE v
-Init == v \in MCVals
-Next == UNCHANGED v
+Init == v \in {<<"part", k>> : k \in 1..(IF Deep THEN 13 ELSE 7)}
+Next == v[1] = "part" /\ v' \in Part(v[2])
 Spec == Init /\ [][Next]_v
+IsVal == v[1] # "part"
 
 (* ---- kinds of values the two properties speak about ---- *)
 JsonLike(x) == ~Exists(x, LAMBDA y : y[1] \in {"chr", "sym", "list"} \/ (y[1] = "flt" /\ y[2] # "fin"))
@@ -104,13 +119,13 @@ RefEnc(x) ==
                       \o (IF Len(x[3]) = 0 THEN <<>>
                           ELSE << <<ZKeyName, <<"jarr", [i \in 1..Len(x[3]) |-> Jstr(KeyName(x[3][i][1]))]>> >> >>)>>
 
-RefRoundTrip == JsonLike(v) => JDen(v, RefEnc(v))
+RefRoundTrip == (IsVal /\ JsonLike(v)) => JDen(v, RefEnc(v))
 Swap(x) == <<"hash", x[2], <<x[3][2], x[3][1]>> \o SubSeq(x[3], 3, Len(x[3]))>>
-OrderMatters == (JsonLike(v) /\ v[1] = "hash" /\ Len(v[3]) >= 2) => ~JDen(Swap(v), RefEnc(v))
-TypeMatters == (JsonLike(v) /\ v[1] = "hash") => ~JDen(<<"hash", <<120>>, v[3]>>, RefEnc(v))
-LeafMatters == (JsonLike(v) /\ v[1] = "arr" /\ Len(v[2]) >= 1) =>
+OrderMatters == (IsVal /\ JsonLike(v) /\ v[1] = "hash" /\ Len(v[3]) >= 2) => ~JDen(Swap(v), RefEnc(v))
+TypeMatters == (IsVal /\ JsonLike(v) /\ v[1] = "hash") => ~JDen(<<"hash", <<120>>, v[3]>>, RefEnc(v))
+LeafMatters == (IsVal /\ JsonLike(v) /\ v[1] = "arr" /\ Len(v[2]) >= 1) =>
                    ~JDen(<<"arr", << <<"str", <<120, 121>>>> >> \o Tail(v[2])>>, RefEnc(v))
-Eq11Refl == JsonLike(v) => /\ Eq11(v, v)
+Eq11Refl == (IsVal /\ JsonLike(v)) => /\ Eq11(v, v)
                            /\ Eq11(<<"arr", <<F(<<1>>, 1, FALSE), v>>>>, <<"arr", <<<<"int", 1, <<1>>>>, v>>>>)
                            /\ ~Eq11(<<"arr", <<F(<<1, 5>>, 1, FALSE), v>>>>, <<"arr", <<<<"int", 1, <<1>>>>, v>>>>)
 
@@ -124,7 +139,7 @@ PWell(x) ==
       [] x[1] = "arr" -> \A i \in 1..Len(x[2]) : PWell(x[2][i])
       [] x[1] = "hash" -> \A i \in 1..Len(x[3]) : x[3][i][1][1] = "sym" /\ PWell(x[3][i][2])   \* ""k"" for a string key
 MalformedTrigger(x) == HasNil(x) \/ HasUint(x) \/ HasStrKey(x) \/ HasBadEscape(CCRep, x)
-EncoderAudit == JsonLike(v) => (PWell(v) <=> ~MalformedTrigger(v))
+EncoderAudit == (IsVal /\ JsonLike(v)) => (PWell(v) <=> ~MalformedTrigger(v))
 
 (* ---- printing then reading as designed in the code ---- *)
 AllDevs == {"float-prints-without-fraction", "nil-reads-as-symbol", "char-literal-first-byte"}
@@ -143,7 +158,7 @@ PRead(x) ==
       [] OTHER -> x
 ReadTrigger(x) == HasPlainFloat(x) \/ HasNil(x) \/ HasWideChar(x)
 ReaderAudit ==
-    ReadLike(v) =>
+    (IsVal /\ ReadLike(v)) =>
       IF Exists(v, LeafUnreadable)
       THEN HasUnreadableEscape(CCRep, v) \/ HasHugePlainFloat(v)
       ELSE /\ ~HasUnreadableEscape(CCRep, v) /\ ~HasHugePlainFloat(v)
